@@ -19,6 +19,8 @@ PARTIAL = ["C15_expired_prompt/C15_no_crash/C15_no_early_timeout are proved for 
 REPLAY_HINT = "_work/c15/drv_<build> <entry> <kind> <sec> <nsec>   (harness/seq/deadline_driver.c linked with the library built from /repo)"
 PROMPT_MS = 500      # an expired deadline must be reported within this many ms (1 ms is typical under load 30-50); a slower case is re-run twice before it counts
 ENTRIES = ["cv", "mu", "note", "counter", "waitn", "cvn", "mun", "rmun", "waitn5"]
+# C++ builds only: the overloads that take a std::chrono time_point, and nsync_note_expiry_timepoint (fifth review: F17, F18)
+TP_ENTRIES = ["cvtp", "mutp", "notetp", "countertp", "waitntp", "exptp"]
 I64MAX = 2 ** 63 - 1
 NS = 10 ** 9
 
@@ -34,14 +36,21 @@ def build():
         "c++": ["g++", "-x", "c++", "-std=c++11", "-O1", "-g", "-w", "-pthread"] + CXX_DEFS +
                ["-I%s/%s" % (REPO, i) for i in CXX_INC] + [drv] + [os.path.join(REPO, s) for s in CPP_LIB_SRC] +
                ["-o", d + "/drv_cpp.tmp%d" % os.getpid()],
+        # the PURE C++11 platform (std::mutex / condition_variable semaphore, C++ per-thread waiter): what CMakeLists.txt builds on the
+        # systems without a futex; it compiles and runs on Linux as well
+        "c++11m": ["g++", "-x", "c++", "-std=c++11", "-O1", "-g", "-w", "-pthread"] + CXX_DEFS +
+               ["-I%s/%s" % (REPO, i) for i in CXX_INC if i != "platform/c++11.futex"] + [drv] +
+               [os.path.join(REPO, {"platform/linux/src/nsync_semaphore_futex.c": "platform/c++11/src/nsync_semaphore_mutex.cc",
+                                    "platform/posix/src/per_thread_waiter.c": "platform/c++11/src/per_thread_waiter.cc"}.get(s, s)) for s in CPP_LIB_SRC] +
+               ["-o", d + "/drv_cppm.tmp%d" % os.getpid()],
     }
-    with cf.ThreadPoolExecutor(2) as ex:
+    with cf.ThreadPoolExecutor(3) as ex:
         futs = {k: ex.submit(sh, v, 300) for k, v in jobs.items()}
         for k, f in futs.items():
             rc, o, e = f.result()
             if rc == 0:
                 # publish by atomic rename: C05 and C15 may build and run these drivers at the same time (fourth review, M4)
-                final = d + ("/drv_c" if k == "c" else "/drv_cpp")
+                final = d + {"c": "/drv_c", "c++": "/drv_cpp", "c++11m": "/drv_cppm"}[k]
                 os.replace(final + ".tmp%d" % os.getpid(), final)
                 exes[k] = final
             else:
@@ -54,7 +63,7 @@ def deadlines(tier):
     'far' = a deadline far in the future (years): like 'none' the driver produces the awaited event after 100 ms, and the wait must
     end by that event -- a timeout result there is an early timeout."""
     ds = [("abs", 0, 0, "expired"), ("abs", 0, 1, "expired"), ("abs", -1, NS - 1, "expired"), ("abs", 1, 0, "expired"),
-          ("abs", -1, 0, "expired"), ("abs", -(2 ** 31), 0, "expired"), ("abs", -(2 ** 62), 5, "expired"),
+          ("abs", -1, 0, "expired"), ("abs", -1, NS // 2, "expired"), ("abs", -2, NS - 1, "expired"), ("abs", -(2 ** 31), 0, "expired"), ("abs", -(2 ** 62), 5, "expired"),
           ("abs", -I64MAX - 1, 0, "expired"), ("abs", -100000, 5, "expired"),
           ("rel", -1, 0, "expired"), ("rel", 0, 0, "expired"), ("rel", -3600, 0, "expired"),
           ("rel", 0, 150000000, ("future", 150)), ("rel", 0, 60000000, ("future", 60)),
@@ -100,6 +109,8 @@ def judge(c):
     if not m:
         return "unparseable output %r" % c["out"]
     cls, ms, early, since_dl = m.group(1), float(m.group(2)), int(m.group(4)), float(m.group(5))
+    if cls == "NA":
+        return None          # the deadline does not fit a time_point: the case does not apply to the time_point overloads
     if exp == "expired":
         if cls != "TIMEOUT":
             return "expired deadline did not produce the timeout result (%s)" % c["out"]
@@ -140,7 +151,7 @@ def run(tier, seed):
     with cf.ThreadPoolExecutor(max_workers=NCPU) as ex:
         futs = []
         for b, exe in exes.items():
-            for entry in ENTRIES:
+            for entry in ENTRIES + (TP_ENTRIES if b != "c" else []):
                 for d in deadlines(tier):
                     futs.append((b, ex.submit(run_case, exe, entry, d)))
         for b, f in futs:
@@ -168,7 +179,8 @@ def run(tier, seed):
     res["coverage"] = {"evaluations": len(cases), "distinct_nontrivial": len([c for c in cases if c["expect"] != "none"]),
                        "rule": "boundary set of deadlines (0, +/-1 ns, +/-1 s, large negative, INT64_MIN, now-d, now, now+d, no_deadline; far future: "
                                "no_deadline - 1 ns, INT64_MAX s, now + 2^31 s, now + 2^62 s, 2^62 s, each with the awaited event produced after 100 ms) x "
-                               "{cv_wait_with_deadline, mu_wait_with_deadline, note_wait, counter_wait, wait_n; cv wait / writer- and reader-mode mu wait WITH a cancel note "
+                               "{C build, C++ build (futex semaphore), pure C++11 build (std::mutex / condition_variable semaphore)}; the C++ builds also through the time_point "
+                               "overloads and nsync_note_expiry_timepoint; entry points: {cv_wait_with_deadline, mu_wait_with_deadline, note_wait, counter_wait, wait_n; cv wait / writer- and reader-mode mu wait WITH a cancel note "
                                "that is never notified (ETIMEDOUT, not ECANCELED, is the timeout result); wait_n on five notes (heap path)} x {C build, C++ build} of the "
                                "real library on the real futex, one child process per case with a 15 s watchdog; early timeouts are judged against the deadline itself on CLOCK_REALTIME; non-trivial = all but no_deadline",
                        "builds": sorted(exes), "samples": cases[:3],
